@@ -70,6 +70,12 @@ fn build(cfg: &Cfg, seed: u64) -> Result<Built, String> {
     // paced runs with interleave 1: an FDT repetition every 8th packet slot
     spec.fdt_carousel = CarouselSpec::DelayMs(if cfg.paced && cfg.interleave == 1 { 40 } else { 150 });
     spec.fdt_duration_s = 3600;
+    // one configuration in three starts its FDT instance ids just below 2^20: in ObjectsBeingTransferred mode every
+    // transfer start publishes a new instance, so the 20-bit id wraps while the late joiners listen
+    let h = util::fnv(&cfg.name());
+    if h % 3 == 0 {
+        spec.fdt_start_id = 0xFFFFF - [1u32, 3, 6, 10][(h / 3 % 4) as usize];
+    }
     spec.queues = vec![(0, 1 + (cfg.nobj as u32 + cfg.interleave as u32) % 3)];
     let mut objs = vec![];
     let mut script = vec![];
@@ -187,7 +193,7 @@ fn main() {
     let prop = Property {
         id: "C16",
         level: "fault_enumeration",
-        rule: "for each carousel configuration (FEC scheme x in-band/FDT-only FTI x in-band/FDT-only CENC x cenc x 1-3 objects x delay/interval carousel x FullFDT/ObjectsBeingTransferred x single/multi-packet FDT x interleave x FDT protected by the same scheme x buffer / stream sources) one long stream is produced on a virtual clock and a FRESH receiver is started at EVERY packet offset of one full carousel cycle; it is fed the stream from that offset up to the index by which every object had two further full transfers and the FDT two further full emissions (computed from Start/Stop events and the independent decoder); oracle: every object has a Complete writer with exact bytes and its last writer is not in error; per configuration: the sender neither panics nor hangs and every finished carousel round carries every source symbol; a case is one chunk of join offsets of one configuration, non-trivial when at least one writer completed; distinct = (configuration, chunk)",
+        rule: "for each carousel configuration (FEC scheme x in-band/FDT-only FTI x in-band/FDT-only CENC x cenc x 1-3 objects x delay/interval carousel x FullFDT/ObjectsBeingTransferred x single/multi-packet FDT x interleave x FDT protected by the same scheme x buffer / stream sources x FDT instance ids starting at 0 or just below the 2^20 wrap) one long stream is produced on a virtual clock and a FRESH receiver is started at EVERY packet offset of one full carousel cycle; it is fed the stream from that offset up to the index by which every object had two further full transfers and the FDT two further full emissions (computed from Start/Stop events and the independent decoder); oracle: every object has a Complete writer with exact bytes and its last writer is not in error; per configuration: the sender neither panics nor hangs and every finished carousel round carries every source symbol; a case is one chunk of join offsets of one configuration, non-trivial when at least one writer completed; distinct = (configuration, chunk)",
         assumptions: vec![
             "receiver: no object timeout, FDT expiry check on with a 1 h FDT duration (expiry interplay is C19's)".into(),
             "carousel parameters leave room for the objects between FDT repetitions (FDT has absolute priority)".into(),
